@@ -157,7 +157,8 @@ func genUciDet(o *Out, r *rand.Rand, thorough bool) {
 				}
 				continue
 			case x < 86: // malformed: must be survived; the next command sets up from scratch
-				add("> "+[]string{"position startpos moves e2e5", "position fen 8/8 w - - 0 1", "position startpos moves", "position", "position fen", "position startpos moves e2e4 e2e4"}[r.Intn(6)], "sync", "alive")
+				add("> "+[]string{"position startpos moves e2e5", "position fen 8/8 w - - 0 1", "position startpos moves", "position", "position fen", "position startpos moves e2e4 e2e4",
+					"position fen 4k3/8/8/8/8/8/4P3/4K3 w - -", "position fen 4k3/8/8/8/8/8/4P3/4K3 w", "position fen 4k3/8/8/8/8/8/4P3/4K3 w - - 0", "position fen 4k3/8/8/8/8/8/4P3/4K3"}[r.Intn(10)], "sync", "alive")
 				tags["malformed"] = true
 				continue
 			}
@@ -345,6 +346,15 @@ func junkUciLine(r *rand.Rand) string {
 	junk := []string{"b5é", "e2é", "e2日", "g1ф", "é2e4", "ｅ２ｅ４", "e2e4\u00a0", "e7e8x", "e7e8", "a9a1", "e2e", "e2e4e4", "E2E4", "ĲĴĲĴ", "eĲeĴ",
 		"99999999999999999999", "-9223372036854775808", "9223372036854775807", "-1", "0x10", "1e3", "NaN", "+5", "İ", "\u0085", "\u200b",
 		"moves", "fen", "startpos", "name", "value", "depth", "", strings.Repeat("e2e4", 80), strings.Repeat("9", 400), "--", "e2e4;", "#", "0000", "(none)"}
+	if r.Intn(8) == 0 {
+		// a record cut short: fewer than the six fields of a FEN after `fen` (with or without a move list behind it)
+		f := strings.Split("4k3/8/8/8/8/8/4P3/4K3 w - - 0 1", " ")
+		l := "position fen " + strings.Join(f[:1+r.Intn(5)], " ")
+		if r.Intn(3) == 0 {
+			l += " moves e2e4"
+		}
+		return l
+	}
 	if r.Intn(3) == 0 {
 		// a move list with one word that is almost a move: byte length and rune length differ, squares off the board, letters
 		// that only look like the ASCII ones, a promotion letter too many or of the wrong kind
